@@ -131,8 +131,11 @@ class MessagePackDocument(HierDictDocument):
         return value
 
     def _ret_bool(self, _, value):
-        if value is None or value in (True, False):
-            return value
+        if value is None:
+            return None
+        # 0 and 1 compare equal to False and True: hand over a real bool.
+        if value in (True, False) and not isinstance(value, float):
+            return bool(value)
         raise ValidationError(value)
 
     def get_class_name(self, cls):
